@@ -75,6 +75,25 @@ class Report:
         if len(self.samples) < limit:
             self.samples.append(s)
 
+    def guard(self, check, detail=None):
+        """Context manager: an exception raised while a case is being replayed / compared is a verdict about that case
+        (the implementation returned something the comparison cannot even digest), not a failure of the machinery."""
+        rep = self
+
+        class _G:
+            def __enter__(self_g):
+                return self_g
+
+            def __exit__(self_g, et, ev, tb):
+                if et is None or not issubclass(et, Exception) or issubclass(et, MachineryError):
+                    return False
+                import traceback
+                where = traceback.extract_tb(tb)[-1]
+                rep.violation(check, "exception-while-checking:%s:%s" % (check, et.__name__),
+                              {"exception": repr(ev)[:300], "at": "%s:%d" % (where.filename.split("/")[-1], where.lineno), "case": detail})
+                return True
+        return _G()
+
     def selftest(self, name, rejected, detail=""):
         self.selftests.append({"name": name, "rejected": bool(rejected), "detail": detail})
         if not rejected:
